@@ -324,23 +324,23 @@ func builtinArrayReverse(call FunctionCall) Value {
 		upper.index = length - lower.index - 1
 		upper.name = arrayIndexToString(upper.index)
 
+		// 15.4.4.8 step 6 d-g: both values are read before either existence test
+		// (a getter may delete the other element).
+		lowerValue := thisObject.get(lower.name)
+		upperValue := thisObject.get(upper.name)
 		lower.exists = thisObject.hasProperty(lower.name)
 		upper.exists = thisObject.hasProperty(upper.name)
 
 		switch {
 		case lower.exists && upper.exists:
-			lowerValue := thisObject.get(lower.name)
-			upperValue := thisObject.get(upper.name)
 			thisObject.put(lower.name, upperValue, true)
 			thisObject.put(upper.name, lowerValue, true)
 		case !lower.exists && upper.exists:
-			value := thisObject.get(upper.name)
-			thisObject.put(lower.name, value, true)
+			thisObject.put(lower.name, upperValue, true)
 			thisObject.delete(upper.name, true)
 		case lower.exists && !upper.exists:
-			value := thisObject.get(lower.name)
 			thisObject.delete(lower.name, true)
-			thisObject.put(upper.name, value, true)
+			thisObject.put(upper.name, lowerValue, true)
 		}
 
 		lower.index++
